@@ -290,6 +290,7 @@ class Shadow(object):
             return b
         for op in ('eq', 'ne', 'lt', 'gt', 'le', 'ge'):
             wrap_method('__%s__' % op, cmpop(op))
+        self.saved[(IW, '__hash__')] = IW.__dict__.get('__hash__')
         IW.__hash__ = lambda self_: id(self_)
 
         wrap_method('__int__', lambda self_, r: SymInt(r, sym_of(self_)))
@@ -413,11 +414,6 @@ class Shadow(object):
     def __exit__(self, *exc):
         for (obj, name), old in self.saved.items():
             setattr(obj, name, old)
-        try:
-            del self.IW.__hash__
-        except Exception:
-            pass
-        self.IW.__hash__ = None if False else object.__hash__
         return False
 
 
@@ -773,10 +769,14 @@ def main():
     only = sys.argv[1:]
     res = []
     for c in classes:
-        if only and c.__name__ not in only:
+        if only and only[0] != '--json' and c.__name__ not in only:
             continue
         res.append(trace_protocol(pyir, c))
-    if only:
+    if '--json' in sys.argv:
+        pass
+    if only and only[0] == '--json':
+        json.dump(res, open(only[1], 'w'))
+    elif only:
         print(json.dumps(res, indent=1))
     else:
         import collections
